@@ -7,7 +7,10 @@ commit=$1; prop=$2; name=$3; shift 3
 wt=/tmp/wt-fix-$name
 git -C /repo worktree remove --force $wt 2>/dev/null
 git -C /repo worktree add -q $wt HEAD || exit 2
-( cd $wt && git revert -n $commit >/dev/null 2>&1 ) || { echo "revert of $commit conflicts"; git -C /repo worktree remove --force $wt; exit 2; }
+# <commit> may be a comma separated list, reverted in the order given (a later repair on the same lines first)
+for cm in ${commit//,/ }; do
+  ( cd $wt && git revert -n $cm >/dev/null 2>&1 ) || { echo "revert of $cm conflicts"; git -C /repo worktree remove --force $wt; exit 2; }
+done
 cd /verif; rm -rf replays/$prop
 VERIF_REPO=$wt ./bin/vcheck $prop "$@" 2>&1 | grep -A2 '^VIOLATION' | cut -c1-220
 f=$(ls replays/$prop/*.json 2>/dev/null | head -1)
